@@ -23,6 +23,17 @@ def _is_normalised_expr(e, norm_names):
         return "result of " + NORMALISER
     if isinstance(e, ast.Name) and e.id in norm_names:
         return f"local `{e.id}` bound to {norm_names[e.id]}"
+    if isinstance(e, ast.IfExp):
+        # normalised on at least one branch: on that branch the consumer normalises a second time
+        for br in (e.body, e.orelse):
+            why = _is_normalised_expr(br, norm_names)
+            if why:
+                return why + " (on one branch of a conditional expression)"
+    if isinstance(e, ast.BoolOp):
+        for br in e.values:
+            why = _is_normalised_expr(br, norm_names)
+            if why:
+                return why + " (operand of and/or)"
     return None
 
 
